@@ -8,12 +8,20 @@ def classify(case, kind):
 
 
 def run(ctx):
+    # the real CLI binary, built from the working tree: a share of the cases is also run through
+    # `nitrogql-cli generate` (cli/src/generate.rs, load_config, file indices as the CLI assigns them)
+    ok, cli = vlib.cli_build(ctx)
+    extra = ["--cli", cli] if ok else []
+    if not ok:
+        vlib.violation(ctx, "nitrogql-cli does not build from the working tree; end-to-end cases not run",
+                       {"stage": "cli-build"}, found_input=False)
     return vlib.standard_check(
         ctx,
         targets=["C14/Properties.vo", "C14/Corr.vo"],
         pinned="C14/Pinned.v",
         binname="c14",
         classify=classify,
+        harness_extra=extra,
         extra_trusted=[
             "the printed TypeScript types and the runtime JSON of each definition are not modelled for C14: they enter the model as data (defbody), cut by the harness from a reference run; the cut is not trusted (the model's op list re-assembled from the pieces is compared with the complete recorded op list), the theorems quantify over all bodies without an export keyword chunk and that guard is evaluated on every recorded body",
             "an export statement is recognised on the writer-operation list by the chunks the visitors write for it (C14/Model.v: scan); its agreement with the `export const` / `export { … as default }` lines of the generated texts is checked on every case whose configured suffixes are identifier-like",
